@@ -96,8 +96,18 @@ class FakeKazooClient(KazooClient):
     finally:
       self.reads_in_flight -= 1
 
+  get_faults = 0        # this many reads of member nodes fail with a connection loss ...
+  get_fault_skip = 0    # ... after this many have gone through
+
   def get(self, path, watch=None):
     def do():
+      if self.get_faults > 0 and '/member_' in path:
+        if self.get_fault_skip > 0:
+          self.get_fault_skip -= 1
+        else:
+          self.get_faults -= 1
+          from kazoo.exceptions import ConnectionLoss
+          raise ConnectionLoss()
       if path not in self.nodes:
         raise NoNodeError()
       if watch is not None:
